@@ -50,7 +50,7 @@ pub enum Stage {
     /// from the same call (bool: rate-decreasing variant, k in -> 1 out).
     Framed(usize, bool),
     /// Harness pass-through answering `Pending` n times before each move.
-    Lazy(usize),
+    Lazy(usize, bool),
     /// Access-code correlator (bits -> bits).
     Correlate(Vec<u8>, usize),
     /// Tee -> (data, trigger = data * k) -> BurstTagger -> StreamToPdu ->
@@ -120,7 +120,7 @@ fn gen_stage(src: &mut Src, ty: Ty, cap_bytes: usize, allow_diamond: bool) -> (S
                 return (Stage::Framed(*src.pick(&[4usize, 7, 16, 64, 500]), src.chance(1, 3)), ty);
             }
             if src.chance(1, 12) {
-                return (Stage::Lazy(src.range(1, 3)), ty);
+                return (Stage::Lazy(src.range(1, 3), src.coin()), ty);
             }
             match src.below(n + allow_diamond as usize) {
                 0 => (Stage::XorConst(if ty == Ty::Bits { src.below(2) as u8 } else { src.below(256) as u8 }), ty),
@@ -155,7 +155,7 @@ fn gen_stage(src: &mut Src, ty: Ty, cap_bytes: usize, allow_diamond: bool) -> (S
             }
         }
         Ty::F32 | Ty::C32 if src.chance(1, 9) => (Stage::Framed(*src.pick(&[4usize, 7, 16, 64, 500]), src.chance(1, 3)), ty),
-        Ty::F32 | Ty::C32 if src.chance(1, 12) => (Stage::Lazy(src.range(1, 3)), ty),
+        Ty::F32 | Ty::C32 if src.chance(1, 12) => (Stage::Lazy(src.range(1, 3), src.coin()), ty),
         Ty::F32 => match src.below(9 + 5 * allow_diamond as usize) {
             0 => (Stage::AddConstF((src.below(41) as f32 - 20.0) * 0.25), ty),
             1 => (Stage::MulConstF((src.below(41) as f32 - 20.0) * 0.125), ty),
@@ -530,16 +530,16 @@ fn build_stage_x(s: &Stage, input: St, blocks: &mut Vec<Box<dyn Block + Send>>, 
             fails.push(f);
             push!(b, o, C32)
         }
-        (Stage::Lazy(k), St::U8(r)) => {
-            let (b, o) = Lazy::new(r, *k);
+        (Stage::Lazy(k, ag), St::U8(r)) => {
+            let (b, o) = Lazy::new(r, *k, *ag);
             push!(b, o, U8)
         }
-        (Stage::Lazy(k), St::F32(r)) => {
-            let (b, o) = Lazy::new(r, *k);
+        (Stage::Lazy(k, ag), St::F32(r)) => {
+            let (b, o) = Lazy::new(r, *k, *ag);
             push!(b, o, F32)
         }
-        (Stage::Lazy(k), St::C32(r)) => {
-            let (b, o) = Lazy::new(r, *k);
+        (Stage::Lazy(k, ag), St::C32(r)) => {
+            let (b, o) = Lazy::new(r, *k, *ag);
             push!(b, o, C32)
         }
         (Stage::Framed(k, f), St::U8(r)) => {
